@@ -552,7 +552,7 @@ def _ge(a, b):
 # -------------------------------------------------------------------------------------------------------------
 def units(tier, seed):
     us = [{'harness': 'layerwalk', 'S': S} for S in (1, 2, 3, 4)]
-    us += [{'harness': 'layerwalk-input', 'S': S} for S in ((1, 2) if tier == 'quick' else (1, 2, 3))]
+    us += [{'harness': 'layerwalk-input', 'S': S} for S in (1, 2)]      # (S = 3 exceeds 8000 paths: every input line forks on '== default' and '== current value')
     for (L, T) in NS[tier]:
         for model in (1, 2, 3, 4):
             us.append({'harness': 'history', 'model': model, 'L': L, 'T': T})
